@@ -277,12 +277,14 @@ fmt_msg = dict(
                 exceptions=True, may_throw=['VFORMAT_TO'],
                 contract=r'''
 __CPROVER_requires(__CPROVER_is_fresh(self, sizeof(*self)) && __CPROVER_is_fresh(transit_event, sizeof(TE)) && __CPROVER_is_fresh(transit_event->macro_metadata, sizeof(MacroMetadata)) && __CPROVER_is_fresh(transit_event->formatted_msg, sizeof(Buf)))
-__CPROVER_requires(g_exc == 0 && g_notify_calls == 0 && g_format_calls == 0 && g_thrown == 0 && transit_event->macro_metadata->g_event <= EV_LoggerRemovalRequest)
+__CPROVER_requires(g_exc == 0 && g_notify_calls == 0 && g_format_calls == 0 && g_thrown == 0 && g_sanitize_calls < 1000 && transit_event->macro_metadata->g_event <= EV_LoggerRemovalRequest)
 __CPROVER_assigns(g_exc, g_notify_calls, g_format_calls, g_sanitize_calls, g_thrown, transit_event->formatted_msg->g_content, transit_event->formatted_msg->g_clears)
 __CPROVER_ensures(g_exc == 0) /*@ C10 "a formatter that throws - a std::exception or any other type - never escapes: the record is consumed and later statements are still delivered" */
 __CPROVER_ensures(g_thrown != 0 ==> (transit_event->formatted_msg->g_content == 2 && g_notify_calls == 1)) /*@ C10 "a statement that cannot be formatted is written with the explanatory error text and reported through the error notifier once" */
 __CPROVER_ensures(g_thrown == 0 ==> (transit_event->formatted_msg->g_content == 1 && g_notify_calls == 0)) /*@ C04 "otherwise the message is the formatted text (the previous content of the reused buffer is cleared first)" */
 __CPROVER_ensures(g_format_calls == 1)
+__CPROVER_ensures((g_thrown == 0 && self->_options.check_printable_char && self->_format_args_store.g_has_string && transit_event->macro_metadata->g_event != EV_LogWithRuntimeMetadata) ==> g_sanitize_calls == OLD(g_sanitize_calls) + 1) /*@ C04 "with the check configured, the formatted text of a statement that has an argument able to carry arbitrary bytes is sanitised (runtime-metadata statements later, once their separator is gone)" */
+__CPROVER_ensures(!self->_options.check_printable_char ==> g_sanitize_calls == OLD(g_sanitize_calls)) /*@ C04 "nothing is rewritten when the check is switched off" */
 ''')],
     harness='  BW* s; TE* te; BW__populate_formatted_log_message(s, te);',
     dropped=['text of the error message', 'fmt argument store contents'], trusted=['fmtquill::vformat_to may throw any exception type (user formatters)'], min_obligations=20)
